@@ -590,9 +590,9 @@ def min_speed_spec(ctx):
         ctx.floor('min_speed call sites in insert_speed', n, 4)
 
 
-def seed(ctx):
+def seed(ctx, prop='C02'):
     """every profile starts as a single point carrying the train's maximum speed"""
-    R = 'C02-2.seed'
+    R = 'C02-2.seed' if prop == 'C02' else 'C13-7.seed'
     b = ctx.anchor(R, 'PathTpc::new')
     if b is not None:
         an = engine(ctx).analysis(b)
@@ -613,9 +613,12 @@ def seed(ctx):
                   'pushes %s, clears %d' % ([show(c.argvals[1], an.names)[:120] for c in ps], len(clears)), ctx.where(b))
 
 
-def add_speeds(ctx):
-    """what add_speeds hands to insert_speed"""
-    R = 'C02-3.add_speeds'
+def add_speeds(ctx, prop='C02', direction='le'):
+    """what add_speeds hands to insert_speed.  Equalities are tried first; where one fails, only the direction the property cares
+    about decides: C02 ('le') needs the inserted restriction to cover at least the posted extent at no more than the posted speed
+    and to be skipped for no other reason; C13 ('ge') needs it to cover at most that extent at no less than that speed and to be
+    applied only when the set's parameter conditions hold"""
+    R = '%s-%s.add_speeds' % (prop, '3' if prop == 'C02' else '6')
     b = ctx.anchor(R, 'PathTpc::add_speeds')
     if b is None:
         return
@@ -643,11 +646,28 @@ def add_speeds(ctx):
         ctx.unproved(R, 'element', 'the inserted restriction is not built from speed_set.speed_limits[k] of the current iteration', w); return
     g = lambda fld: T(('pre', el + (('f', fld),)))
     from .common import prove
-    prove(ctx, R, 'offset_start', an, 'eq', T(f['offset_start']), g('offset_start') + T(ob), assume=[], where=w, note='shifted by the link\'s start offset')
     ext = T(mk('gamma', ('pre', ss + (('f', 'is_head_end'),)), ZERO, ('pre', tp + (('f', 'length'),))))
-    prove(ctx, R, 'offset_end', an, 'eq', T(f['offset_end']), g('offset_end') + T(ob) + ext, assume=[], where=w,
-          note='shifted by the link\'s start offset and, unless the set is a head-end set, extended by the train length')
-    ctx.check(f['speed'] == g('speed').t, R, 'speed', 'the posted speed is passed unchanged', 'speed = %s' % show(f['speed'], an.names)[:120], w)
+    AS = [(r'train_params\.length$|\.length$', 'nonneg')]
+
+    def eq_or_dir(key, got, want, kind_if_le, note):
+        """equality, else the inequality that matters for this property (kind_if_le is the relation C02 needs: 'le' or 'ge')"""
+        pv = Prover(an.names, assume=AS)
+        v, d = pv.eq(_t(got), _t(want), [])
+        if v == 'PROVED':
+            ctx.ok(R, key, note + ' :: ' + d[:100], w); return
+        kind = kind_if_le if direction == 'le' else ('ge' if kind_if_le == 'le' else 'le')
+        v2, d2 = (pv.le(_t(got), _t(want), []) if kind == 'le' else pv.le(_t(want), _t(got), []))
+        txt = '%s :: %s %s %s :: %s' % (note, show(_t(got), an.names)[:160], '≤' if kind == 'le' else '≥', show(_t(want), an.names)[:160], d2[:160])
+        if v2 == 'PROVED':
+            ctx.ok(R, key, txt + ' (not equal, but on the side this property allows)', w)
+        elif v2 == 'DISPROVED':
+            ctx.bad(R, key, txt, w)
+        else:
+            ctx.unproved(R, key, txt, w)
+    eq_or_dir('offset_start', T(f['offset_start']), g('offset_start') + T(ob), 'le', 'starts at the posted start shifted by the link\'s start offset')
+    eq_or_dir('offset_end', T(f['offset_end']), g('offset_end') + T(ob) + ext, 'ge',
+              'ends at the posted end shifted by the link\'s start offset and, unless the set is a head-end set, extended by the train length')
+    eq_or_dir('speed', T(f['speed']), g('speed'), 'le', 'carries the posted speed')
     # gating: applies() and speed < speed_max, nothing else; every element of the set
     ac = [x for x in an.calls if x.targets and any(t.endswith('speed_set_applies') for t in x.targets)]
     appl = ac[0].result if len(ac) == 1 else None
@@ -663,10 +683,25 @@ def add_speeds(ctx):
             pass
         else:
             rest.append((show(cnd, an.names)[:100], o))
-    ctx.check(seen_appl and not rest, R, 'gate', 'a restriction is skipped only if the set\'s parameter conditions do not apply or its speed is not below the train\'s maximum speed',
-              'insert_speed is gated by %s (applies seen: %s)' % (rest, seen_appl), w)
-    ctx.check(seen_filt or not any('speed_max' in x for x, _ in rest), R, 'filter', 'the only value filter is speed < train_params.speed_max (a restriction at or above the seed value changes nothing)',
-              'gate %s' % rest, w)
+    if direction == 'le' and appl is not None:
+        # a condition that holds whenever the set applies cannot skip a restriction the reference would insert
+        kept = []
+        for cnd, o in c.pc:
+            if (show(cnd, an.names)[:100], o) not in rest:
+                continue
+            red = cnd
+            for _ in range(3):
+                red = map_term(red, lambda x: TRUE if x == appl else x)
+            if (red == TRUE and o != '0') or (red == FALSE and o == '0'):
+                continue
+            kept.append((show(cnd, an.names)[:100], o))
+        rest = kept
+    if direction == 'le':
+        ctx.check(not rest, R, 'gate', 'a restriction is skipped only if the set\'s parameter conditions do not apply or its speed is not below the train\'s maximum speed',
+                  'insert_speed is additionally gated by %s' % (rest,), w)
+    else:
+        ctx.check(seen_appl, R, 'gate', 'restrictions are applied only when the set\'s parameter conditions hold for this train',
+                  'insert_speed is not gated by speed_set_applies (gate: %s)' % (rest,), w)
     # callers pass the link point's offset as offset_base
     inv = inventory(ctx)
     n = 0
